@@ -128,6 +128,107 @@ class Repo:
         if self.parse_errors:
             raise AnalysisError("source files do not parse: " + "; ".join(self.parse_errors))
         self._subclass_cache: dict[str, list[Cls]] | None = None
+        self.inlined_oneliners: list[str] = []
+        self.inlined_oneliner_keys: set[str] = set()
+        for _ in range(2):
+            if not self._inline_oneliners():
+                break
+
+    # ------------------------------------------------------------------ expression helpers are looked through
+    def _inline_oneliners(self) -> int:
+        """Part of the whole-program normal form: a call to a plain module-level helper whose body is a single `return <expr>` and
+        that the reference tree does not have (sa/known_funcs.json) is replaced by that expression over the arguments, so that a
+        predicate or accessor extracted into a helper reads like the code it was extracted from."""
+        import copy
+        import json
+
+        try:
+            known = frozenset(json.loads(Path(__file__).with_name("known_funcs.json").read_text()))
+        except Exception:  # noqa: BLE001
+            return 0
+        cands: dict[int, tuple[Func, ast.expr]] = {}
+        for m in self.modules.values():
+            for h in m.funcs.values():
+                if h.key in known or h.node.decorator_list:
+                    continue
+                body = [st for st in h.node.body if not (isinstance(st, ast.Expr) and isinstance(st.value, ast.Constant))]
+                a = h.node.args
+                if len(body) != 1 or not isinstance(body[0], ast.Return) or body[0].value is None or a.vararg or a.kwarg or a.kwonlyargs:
+                    continue
+                e = body[0].value
+                nodes = list(ast.walk(e))
+                if len(nodes) > 80 or any(isinstance(n, (ast.Lambda, ast.Yield, ast.YieldFrom, ast.Await, ast.NamedExpr)) for n in nodes):
+                    continue
+                if any(isinstance(n, ast.Call) and isinstance(n.func, ast.Name) and n.func.id == h.name for n in nodes):
+                    continue
+                cands[id(h.node)] = (h, e)
+        if not cands:
+            return 0
+        repo = self
+        count = 0
+
+        class Inl(ast.NodeTransformer):
+            def __init__(self, m: Module):
+                self.m = m
+                self.inside: list[ast.AST] = []
+
+            def visit_FunctionDef(self, node: ast.FunctionDef) -> ast.AST:
+                self.inside.append(node)
+                self.generic_visit(node)
+                self.inside.pop()
+                return node
+
+            def visit_Call(self, node: ast.Call) -> ast.AST:
+                nonlocal count
+                self.generic_visit(node)
+                if not isinstance(node.func, ast.Name):
+                    return node
+                h = self.m.funcs.get(node.func.id)
+                if h is None and node.func.id in self.m.imports:
+                    obj = repo.lookup_dotted(self.m.imports[node.func.id])
+                    h = obj if isinstance(obj, Func) else None
+                if h is None or id(h.node) not in cands or any(x is h.node for x in self.inside):
+                    return node
+                _, e = cands[id(h.node)]
+                a = h.node.args
+                params = [x.arg for x in (*a.posonlyargs, *a.args)]
+                if len(node.args) > len(params) or any(isinstance(x, ast.Starred) for x in node.args) or any(k.arg is None for k in node.keywords):
+                    return node
+                bound: dict[str, ast.expr] = dict(zip(params, node.args))
+                for k in node.keywords:
+                    if k.arg not in params or k.arg in bound:
+                        return node
+                    bound[k.arg] = k.value  # type: ignore[index]
+                defaults = dict(zip(params[len(params) - len(a.defaults):], a.defaults)) if a.defaults else {}
+                for p_ in params:
+                    if p_ not in bound:
+                        if p_ not in defaults:
+                            return node
+                        bound[p_] = defaults[p_]
+                # no capture: names bound inside the expression must not occur free in the arguments
+                inner = {n.id for c in ast.walk(e) if isinstance(c, ast.comprehension) for n in ast.walk(c.target) if isinstance(n, ast.Name)}
+                if inner & {n.id for v in bound.values() for n in ast.walk(v) if isinstance(n, ast.Name)} or inner & set(params):
+                    return node
+
+                class Sub(ast.NodeTransformer):
+                    def visit_Name(self, n: ast.Name) -> ast.AST:
+                        if isinstance(n.ctx, ast.Load) and n.id in bound:
+                            return copy.deepcopy(bound[n.id])
+                        return n
+
+                new = Sub().visit(copy.deepcopy(e))
+                for ch in ast.walk(new):
+                    if isinstance(ch, (ast.expr, ast.stmt)):
+                        ast.copy_location(ch, node)
+                count += 1
+                repo.inlined_oneliners.append(f"{self.m.relpath}:{node.lineno} {h.name}")
+                repo.inlined_oneliner_keys.add(h.key)
+                return new
+
+        for m in self.modules.values():
+            Inl(m).visit(m.tree)
+            ast.fix_missing_locations(m.tree)
+        return count
 
     # ------------------------------------------------------------------ indexing
     def _index(self, m: Module) -> None:
